@@ -14,6 +14,7 @@ import (
 
 	simplefixgo "github.com/b2broker/simplefix-go"
 	"github.com/b2broker/simplefix-go/fix"
+	"github.com/b2broker/simplefix-go/fix/encoding"
 	"github.com/b2broker/simplefix-go/session"
 	"github.com/b2broker/simplefix-go/session/messages"
 	"github.com/b2broker/simplefix-go/storages/memory"
@@ -38,6 +39,8 @@ type Cfg struct {
 	Creds string `json:"creds"`
 	// SaveFailOnly: the message store refuses exactly this Save (0: none)
 	SaveFailOnly int `json:"saveFailOnly"`
+	// CtrFailOnly: the counter store refuses exactly this SetSeqNum of the incoming counter (0: none)
+	CtrFailOnly int `json:"ctrFailOnly"`
 	// Stamp: the application registers an outgoing handler that amends every message (sets SenderSubID), the documented purpose
 	// of HandleOutgoing: what is transmitted, stored and later retransmitted is the amended message
 	Stamp bool `json:"stamp"`
@@ -46,6 +49,27 @@ type Cfg struct {
 	RemoveDance bool `json:"removeDance"`
 	// SlowLogonMs: the application's logon callback takes this long (virtual time); local calls made meanwhile overlap with it
 	SlowLogonMs int `json:"slowLogonMs"`
+}
+
+// failOnceCounter: an application counter store one of whose updates of the incoming counter fails (and the next one works again)
+type failOnceCounter struct {
+	session.CounterStorage
+	mu   sync.Mutex
+	only int
+	n    int
+}
+
+func (f *failOnceCounter) SetSeqNum(id fix.StorageID, n int) error {
+	if id.Side == fix.Incoming {
+		f.mu.Lock()
+		f.n++
+		k := f.n
+		f.mu.Unlock()
+		if k == f.only {
+			return errors.New("counter store: write failed")
+		}
+	}
+	return f.CounterStorage.SetSeqNum(id, n)
 }
 
 // failFromStore: an application store that starts failing (a disk that filled up, a database that went away)
@@ -195,6 +219,23 @@ type Rig struct {
 	removeID int64
 	cfg      Cfg
 	mid    *Action // armed: inject this inbound message when the next outbound message passes the outgoing handlers
+	nsend  int     // application sends so far
+}
+
+// ParsedRequest returns an application message whose fields - header included - were populated by parsing: a message received
+// elsewhere and passed on through this session.  Its old number, identifiers and time are what the session has to replace.
+func ParsedRequest(id string) *fixgen.MarketDataRequest {
+	src := fixgen.NewMarketDataRequest().SetMDReqID(id)
+	src.HeaderBuilder().SetFieldMsgSeqNum(4242).SetFieldSenderCompID("OLDS").SetFieldTargetCompID("OLDT").SetFieldSendingTime("19990101-00:00:00.000")
+	b, err := src.ToBytes()
+	if err != nil {
+		panic(err)
+	}
+	m := fixgen.NewMarketDataRequest()
+	if err := encoding.Unmarshal(m, b); err != nil {
+		panic(err)
+	}
+	return m
 }
 
 func (r *Rig) ms() int64 { return time.Since(r.start).Milliseconds() }
@@ -225,6 +266,9 @@ func NewRig(cfg Cfg) (*Rig, error) {
 	}
 	if cfg.SaveFailFrom > 0 || cfg.SaveFailOnly > 0 {
 		ms = &failFromStore{MessageStorage: ms, from: cfg.SaveFailFrom, only: cfg.SaveFailOnly}
+	}
+	if cfg.CtrFailOnly > 0 {
+		cs = &failOnceCounter{CounterStorage: cs, only: cfg.CtrFailOnly}
 	}
 	var err error
 	if cfg.Role == "acceptor" {
@@ -368,6 +412,9 @@ func (r *Rig) Do(a *Action) (callErr bool) {
 		}
 	case "send":
 		m := fixgen.NewMarketDataRequest().SetMDReqID("req")
+		if r.nsend++; r.nsend%3 == 2 { // every third message the application sends is one it received elsewhere
+			m = ParsedRequest("req")
+		}
 		callErr = r.S.Send(m) != nil
 	case "llogout":
 		callErr = r.S.Logout() != nil
